@@ -1,6 +1,7 @@
 ----------------------------- MODULE Trace_C17 -----------------------------
 (* Validates the strings xsl:number produced against Numbering.tla (XSLT 7.7 / 7.7.1).           *)
-(*   [e |-> "Number", doc, node, instr, fmt, out]   one per numbered node, in visiting order       *)
+(*   [e |-> "Number", doc, node, instr, fmt, out, t]   one per numbered node, in visiting order (t: optional,   *)
+(*                                                  the value of $t the patterns of the instruction refer to)     *)
 (*   [e |-> "Format", value, fmt, out]              xsl:number value="..." format="..."            *)
 (*   [e |-> "Group", value, gsep, gsize, out]       xsl:number value grouping-separator grouping-size *)
 EXTENDS Numbering, Json, IOUtils
@@ -20,7 +21,8 @@ C17Step(s, ev) ==
        [ok |-> want = ev.out, st |-> s, cont |-> TRUE, drop |-> FALSE,
         msg |-> "format: want " \o ToString(want) \o " got " \o ToString(ev.out)]
   ELSE LET n == <<ev.doc, ev.node, 0>>
-           c == [f |-> Forest, n |-> n, pos |-> 1, size |-> 1, vars |-> <<>>, cur |-> n, keys |-> <<>>]
+           \* the count / from patterns may refer to a parameter of the numbering template (ev.t: its value at THIS instantiation)
+           c == [f |-> Forest, n |-> n, pos |-> 1, size |-> 1, vars |-> IF "t" \in DOMAIN ev THEN [x \in {"t"} |-> SV(ev.t)] ELSE <<>>, cur |-> n, keys |-> <<>>]
        IN IF Ambiguous(ev.instr, n, c) THEN [ok |-> TRUE, st |-> s, drop |-> TRUE, msg |-> ""]
           ELSE LET lst == NumberList(ev.instr, n, c)
                    want == FormatList(lst, ev.fmt) IN
